@@ -28,11 +28,12 @@ if [ -f "$SRC/demo.diff" ]; then
   clean
 elif [ -f "$SRC/demo.py" ]; then
   demo_kind="uci script (demo.py)"
-  (cd "$S" && CARGO_PROFILE_RELEASE_LTO=off cargo build --release --offline >/dev/null 2>&1)
-  (cd "$S" && timeout 300 python3 "$SRC/demo.py" target/release/rust_chess_engine >/dev/null 2>&1); demo_with="exit $?"
+  # built with the hooks compiled in (they are no-ops unless RCE_VERIF_SCHED is set); some demos need the schedule points
+  (cd "$S" && RUSTFLAGS="--cfg rce_verif -A warnings" CARGO_PROFILE_RELEASE_LTO=off cargo build --release --offline >/dev/null 2>&1)
+  (cd "$S" && timeout 600 python3 "$SRC/demo.py" target/release/rust_chess_engine >/dev/null 2>&1); demo_with="exit $?"
   clean
-  (cd "$S" && CARGO_PROFILE_RELEASE_LTO=off cargo build --release --offline >/dev/null 2>&1)
-  (cd "$S" && timeout 300 python3 "$SRC/demo.py" target/release/rust_chess_engine >/dev/null 2>&1); demo_without="exit $?"
+  (cd "$S" && RUSTFLAGS="--cfg rce_verif -A warnings" CARGO_PROFILE_RELEASE_LTO=off cargo build --release --offline >/dev/null 2>&1)
+  (cd "$S" && timeout 600 python3 "$SRC/demo.py" target/release/rust_chess_engine >/dev/null 2>&1); demo_without="exit $?"
 fi
 clean
 # 3. our checks against the change
